@@ -11,7 +11,7 @@ Engine E: every option type x hostile value domain is saved with the real `optma
 """
 from __future__ import annotations
 
-import atexit
+import gc
 import io
 import itertools
 import os
@@ -497,17 +497,12 @@ def vclass(assign):
     return [c for c in CLASS_ORDER if c in cl][0]
 
 
-_SCRATCH = None
+_SCRATCH = None  # set by rt_chunk for the duration of one chunk (pool workers do not run atexit handlers)
 
 
 def scratch():
-    global _SCRATCH
-    if _SCRATCH is None or _SCRATCH[0] != os.getpid():
-        d = "/dev/shm/vmc-%d-c44" % os.getpid()
-        os.makedirs(d, exist_ok=True)
-        atexit.register(shutil.rmtree, d, True)
-        _SCRATCH = (os.getpid(), d)
-    return _SCRATCH[1]
+    assert _SCRATCH is not None
+    return _SCRATCH
 
 
 def rt_cases(tier):
@@ -590,9 +585,17 @@ def _same_rt(got, want):
 
 
 def rt_chunk(cases):
+    global _SCRATCH
     t = Tally()
-    for c in cases:
-        rt_one(c, t)
+    d = "/dev/shm/vmc-%d-c44" % os.getpid()
+    os.makedirs(d, exist_ok=True)
+    _SCRATCH = d
+    try:
+        for c in cases:
+            rt_one(c, t)
+    finally:
+        _SCRATCH = None
+        shutil.rmtree(d, ignore_errors=True)
     return t
 
 
@@ -626,6 +629,8 @@ def run(ctx):
     # worker (the state spaces are small: pool start-up per BFS level would cost more than the exploration)
     global _DEPTH
     _DEPTH = depth
+    gc.collect()
+    gc.freeze()  # forked workers then do not copy the parent's heap on every collection
     total = 0
     for cfg, states, t in par.pmap(bfs_chunk, list(LCONFIGS), nchunks=len(LCONFIGS)):
         ctx.tally.merge(t)
@@ -640,7 +645,10 @@ def run(ctx):
 
 def replay(case, t: Tally, verbose=False):
     if isinstance(case, dict) and "roundtrip" in case:
-        rt_one([case["roundtrip"], case["prev"], case["path"]], t)
+        t.merge(rt_chunk([[case["roundtrip"], case["prev"], case["path"]]]))
+        if verbose:
+            for k, lst in t.violations.items():
+                print("  file text:", repr(lst[0].observed.get("file")))
         return
     cfg, hist = case
     spec = Spec(cfg)
